@@ -116,6 +116,14 @@ def run_oracle(case):
                             % (op, v, seen[id(v)], eq), {'op_index': j}))
                 break
             seen[id(v)] = eq
+        # the equations, and with them the definitions and graph nodes, are about variables OF THIS MODEL
+        own = {id(w) for w in im.model.variables()}
+        for eq in im.model.equations:
+            v = eq.lhs.args[0] if eq.lhs.is_Derivative else eq.lhs
+            if id(v) not in own:
+                bad.append(('after %r Model.equations holds %s, whose left-hand side is not a variable of the model (a %s named %r)'
+                            % (op, eq, type(v).__name__, getattr(v, 'name', None)), {'op_index': j}))
+                break
         # every state variable is a node of the dependency graph (whatever the order of the equations), and the id registry
         # agrees with the ids the live variables carry (annotation edits are edits of the model too)
         try:
@@ -123,6 +131,19 @@ def run_oracle(case):
             for sv in im.model.get_state_variables():
                 if sv not in g.nodes:
                     bad.append(('after %r the state variable %s is not a node of the dependency graph' % (op, sv.name), {'op_index': j}))
+                    break
+        except Exception:
+            pass
+        # graph and equation list agree: the 'equation' a node carries is the equation of Model.equations whose left-hand
+        # side is that node (none for a state or free variable that no assignment defines)
+        try:
+            g = im.model.graph
+            for node, data in g.nodes.items():
+                want = [eq for eq in im.model.equations if eq.lhs == node]
+                got = data.get('equation')
+                if len(want) <= 1 and got is not (want[0] if want else None):
+                    bad.append(('after %r the dependency graph says %s is defined by %s, Model.equations says %s'
+                                % (op, node, got, want[0] if want else None), {'op_index': j}))
                     break
         except Exception:
             pass
